@@ -277,10 +277,18 @@ def dtw_series_from_data(data, force_pointers=False):
     cdef DTWSeriesPointers ptrs
     cdef DTWSeriesMatrix matrix
     cdef intptr_t ptr
+    cdef seq_t[:] view
     if force_pointers or isinstance(data, list) or isinstance(data, set) or isinstance(data, tuple):
         ptrs = DTWSeriesPointers(len(data))
         for i in range(len(data)):
-            ptr = data[i].ctypes.data  # uniform for memoryviews and numpy
+            if hasattr(data[i], 'ctypes'):
+                ptr = data[i].ctypes.data  # uniform for memoryviews and numpy
+            elif len(data[i]) > 0:
+                # e.g. array.array('d'): use the buffer protocol
+                view = data[i]
+                ptr = <intptr_t> &view[0]
+            else:
+                ptr = 0
             ptrs._ptrs[i] = <seq_t *> ptr
             ptrs._lengths[i] = len(data[i])
         return ptrs
